@@ -207,6 +207,8 @@ def run(ctx):
     ctx.rule("text/fixed-width", "a text field the reader slices with fixed width w is written with a format that yields exactly w characters over the field's declared range")
     ctx.rule("optional/deref", "a field the reader may set to None is not dereferenced by the writer under the same flags")
     ctx.rule("shape/coverage", "at least the hand-confirmed number of distinct shapes per PDU family is analysed")
+    ctx.rule("checksum/no-carry-dropped", "HRNP ones-complement sum: by interval analysis over all packets the length field allows, every mask keeps all bits of its operand or is the end-around-carry idiom, "
+                                          "and the value that is complemented lies in [0, 0xFFFF]")
     sd = seeds(repo)
     decoders = {}
     for mod, cls in DECODERS:
@@ -318,6 +320,7 @@ def run(ctx):
         ctx.ob("shape/coverage", fam, fam_count.get(fam, 0) >= need, f"{fam_count.get(fam, 0)} shapes analysed, {need} confirmed by hand", "")
     ctx.extra.pop("_seen", None)
     text_rules(ctx, repo)
+    checksum_carry_rule(ctx, repo)
     ctx.require("shape/roundtrip-fields", 20)
     ctx.require("frame/hdap", 10)
     ctx.require("frame/hrnp", 4)
@@ -649,3 +652,25 @@ def text_rules(ctx, repo):
             ctx.ob("text/fixed-width", f"{gci.qualname} | {fld}", ok, why, wr.loc)
     if found < 3:
         raise AnalysisError(f"{wr.qualname}: only {found} formatted text fields matched to reader slices")
+
+
+def checksum_carry_rule(ctx, repo):
+    """the part of the HRNP checksum that the shape analysis treats as an uninterpreted function: its carry handling, decided
+    by an interval analysis (sa/intervals.py) for every packet length the 16-bit length field admits"""
+    from sa.intervals import CarryAnalysis
+    hr = repo.cls("hytera.pdu.hrnp", "HRNP")
+    fi = repo.find_method(hr, "verify_checksum")
+    ctx.saw_func(fi)
+    # the length field is written with to_bytes(2): at most 65535 octets, one pad octet -> 32768 words
+    two = [n for n in ast.walk(fi.node) if isinstance(n, ast.Call) and isinstance(n.func, ast.Attribute) and n.func.attr == "to_bytes"
+           and "len(self)" in ast.unparse(n.func.value) and ((n.args and isinstance(n.args[0], ast.Constant) and n.args[0].value == 2)
+                                                            or any(k.arg == "length" and isinstance(k.value, ast.Constant) and k.value.value == 2 for k in n.keywords))]
+    if not two:
+        raise AnalysisError("HRNP.verify_checksum: the 2-octet length field (bound of the packet size) not found")
+    a = CarryAnalysis(fi, 32768, fold=lambda e: repo.fold_expr(e, fi.module, hr)).run()
+    bad = [ev for ev in a.events if not ev[3]]
+    for line, expr, iv, ok, why in a.events:
+        ctx.ob("checksum/no-carry-dropped", f"HRNP.verify_checksum | `{expr}` with operand in {iv}", ok, why, f"{fi.module.relpath}:{line}")
+    ctx.ob("checksum/no-carry-dropped", "HRNP.verify_checksum | value that is complemented / returned", a.final.lo >= 0 and a.final.hi <= 0xFFFF,
+           f"accumulator after the summation loop {a.after_sum} ({a.max_words} words of {a.word_bits} bits at most), after folding {a.final}", fi.loc)
+    ctx.require("checksum/no-carry-dropped", 3)
